@@ -64,6 +64,7 @@ pub fn relator_permutations(fw: &FreeWord) -> (result: BTreeSet<FreeWord>)
     ensures
         has_view(result@, fw@),
         forall|u: FreeWord, b: int| #![trigger result@.contains(u), within(fw@, b)] result@.contains(u) && within(fw@, b) ==> within(u@, b),
+        forall|act: spec_fn(int, int) -> int, n: int, u: FreeWord| #![trigger m1(act, n), result@.contains(u)] m1(act, n) && within(fw@, n) && triv(act, fw@) && result@.contains(u) ==> triv(act, u@),
 { unimplemented!() }
 // free_words: impl Index<usize> for FreeWord
 impl IndexSpecImpl<usize> for FreeWord {
@@ -559,7 +560,7 @@ pub open spec fn rows_ok(t: &CosetTable) -> bool {
     &&& forall|c: int, g: int| 0 <= c < t.table@.len() && t.col_ok(g) ==> -1 <= #[trigger] t.raw(c, g) < t.table@.len()
     &&& forall|x: int| 0 <= x < t.table@.len() ==> 0 <= #[trigger] t.part.rep(x) < t.table@.len()
     &&& forall|x: int| #[trigger] t.part.rep(t.part.rep(x)) == t.part.rep(x)
-    &&& forall|x: int| x >= t.table@.len() ==> #[trigger] t.part.rep(x) == x
+    &&& forall|x: int| !(0 <= x < t.table@.len()) ==> #[trigger] t.part.rep(x) == x
 }
 
 proof fn lemma_act_in_range(t: &CosetTable, c: int, g: int)
@@ -802,6 +803,274 @@ proof fn lemma_kinv_unite(t0: &CosetTable, t1: &CosetTable, q: Seq<(int, int)>, 
 }
 
 // =====================================================================================================
+// C11: "exactly [G:H] rows" -- as a universal property.  A MODEL is a set of points with an action of the generators in which inverse
+// generators undo generators, every relator acts trivially and the subgroup generators fix a base point x0 (e.g. the cosets of H in G
+// with x0 = H).  U: for every model there is a map phi from the rows to the points, phi(0) = x0, constant on the classes and on the
+// pending pairs, with phi(c.g) = phi(c).g for every defined entry.  So the table never identifies more than every model does: together
+// with completeness, inverse-consistency, transitivity and relator closure (the table IS a model) it is the initial one, i.e. G/H.
+// =====================================================================================================
+pub open spec fn m1(act: spec_fn(int, int) -> int, n: int) -> bool {
+    forall|x: int, g: int| g != 0 && -n <= g <= n ==> #[trigger] act(act(x, g), -g) == x
+}
+pub open spec fn act_word(act: spec_fn(int, int) -> int, x: int, w: Seq<isize>) -> int
+    decreases w.len()
+{
+    if w.len() == 0 { x } else { act(act_word(act, x, w.drop_last()), w.last() as int) }
+}
+pub open spec fn triv(act: spec_fn(int, int) -> int, w: Seq<isize>) -> bool { forall|x: int| #[trigger] act_word(act, x, w) == x }
+// the model condition on the words the enumeration scans: the expanded relator set and the subgroup generators
+pub open spec fn emodel(n: int, rels: Set<FreeWord>, subs: Seq<FreeWord>, act: spec_fn(int, int) -> int, x0: int) -> bool {
+    &&& m1(act, n)
+    &&& forall|u: FreeWord| #[trigger] rels.contains(u) ==> triv(act, u@)
+    &&& forall|m: int| 0 <= m < subs.len() ==> act_word(act, x0, (#[trigger] subs[m])@) == x0
+}
+pub open spec fn uadm(t: &CosetTable, pend: Seq<(int, int)>, act: spec_fn(int, int) -> int, x0: int, phi: spec_fn(int) -> int) -> bool {
+    &&& phi(0) == x0
+    &&& resp(t, pend, phi)
+    &&& forall|c: int, g: int| 0 <= c < t.table@.len() && t.gen_ok(g) && t.raw(c, g) >= 0 ==> phi(#[trigger] t.raw(c, g)) == act(phi(c), g)
+}
+pub open spec fn uinv(t: &CosetTable, pend: Seq<(int, int)>, act: spec_fn(int, int) -> int, x0: int) -> bool {
+    exists|phi: spec_fn(int) -> int| #[trigger] uadm(t, pend, act, x0, phi)
+}
+
+proof fn lemma_word_concat(act: spec_fn(int, int) -> int, x: int, u: Seq<isize>, v: Seq<isize>)
+    ensures act_word(act, x, u + v) == act_word(act, act_word(act, x, u), v)
+    decreases v.len()
+{
+    if v.len() == 0 { assert(u + v =~= u); }
+    else {
+        assert((u + v).drop_last() =~= u + v.drop_last());
+        assert((u + v).last() == v.last());
+        lemma_word_concat(act, x, u, v.drop_last());
+    }
+}
+
+proof fn lemma_word_inv(act: spec_fn(int, int) -> int, n: int, x: int, v: Seq<isize>)
+    requires m1(act, n), forall|j: int| 0 <= j < v.len() ==> #[trigger] v[j] != 0 && -n <= v[j] <= n && v[j] > isize::MIN
+    ensures act_word(act, act_word(act, x, v), inv_word(v)) == x
+    decreases v.len()
+{
+    if v.len() > 0 {
+        let v0 = v.drop_last();
+        let g = v.last();
+        let iv = inv_word(v);
+        // inv_word(v) = [-g] ++ inv_word(v0)
+        assert(iv =~= seq![(-(g as int)) as isize] + inv_word(v0)) by {
+            assert(iv.len() == v.len());
+            assert forall|k: int| 0 <= k < iv.len() implies iv[k] == (seq![(-(g as int)) as isize] + inv_word(v0))[k] by {
+                if k > 0 { assert(inv_word(v0)[k - 1] == (-(v0[v0.len() - 1 - (k - 1)] as int)) as isize); assert(v0[v0.len() - k] == v[v.len() - 1 - k]); }
+            }
+        }
+        let y = act_word(act, x, v);
+        lemma_word_concat(act, y, seq![(-(g as int)) as isize], inv_word(v0));
+        let s1 = seq![(-(g as int)) as isize];
+        assert(v[v.len() - 1] != 0 && -n <= v[v.len() - 1] <= n && v[v.len() - 1] > isize::MIN);
+        assert(s1.len() == 1 && s1.last() == (-(g as int)) as isize);
+        assert(s1.drop_last() =~= Seq::<isize>::empty());
+        assert(act_word(act, y, s1.drop_last()) == y);
+        assert(act_word(act, y, s1) == act(y, -(g as int)));
+        assert(act(act(act_word(act, x, v0), g as int), -(g as int)) == act_word(act, x, v0));
+        assert forall|j: int| 0 <= j < v0.len() implies #[trigger] v0[j] != 0 && -n <= v0[j] <= n && v0[j] > isize::MIN by { assert(v0[j] == v[j]); }
+        lemma_word_inv(act, n, x, v0);
+    }
+}
+
+// along a defined trace, phi follows the action of the model
+proof fn lemma_trace_phi(t: &CosetTable, act: spec_fn(int, int) -> int, x0: int, phi: spec_fn(int) -> int, row: int, w: Seq<isize>)
+    requires rows_ok(t), uadm(t, Seq::<(int, int)>::empty(), act, x0, phi), 0 <= row < t.table@.len(), gens_ok(t, w), trace(t, row, w).is_some()
+    ensures phi(trace(t, row, w).unwrap() as int) == act_word(act, phi(row), w), trace(t, row, w).unwrap() < t.table@.len()
+    decreases w.len()
+{
+    if w.len() > 0 {
+        let w0 = w.drop_last();
+        assert(gens_ok(t, w0)) by { assert forall|j: int| 0 <= j < w0.len() implies t.gen_ok(#[trigger] w0[j] as int) by { assert(w0[j] == w[j]); } }
+        lemma_trace_phi(t, act, x0, phi, row, w0);
+        let y0 = trace(t, row, w0).unwrap() as int;
+        assert(t.gen_ok(w[w.len() - 1] as int));
+        lemma_act_in_range(t, y0, w.last() as int);
+        assert(phi(t.part.rep(t.raw(y0, w.last() as int))) == phi(t.raw(y0, w.last() as int)));
+    }
+}
+
+// what a scan of a word that fixes phi(start) tells about phi: the two ends are linked by the missing middle part
+proof fn lemma_scan_phi(t: &CosetTable, act: spec_fn(int, int) -> int, x0: int, phi: spec_fn(int) -> int, w: Seq<isize>, start: int, head: usize, tail: usize, i: int, j: int)
+    requires rows_ok(t), uadm(t, Seq::<(int, int)>::empty(), act, x0, phi), m1(act, t.nr_gens as int), 0 <= start < t.table@.len(),
+        gens_ok(t, w), forall|k: int| 0 <= k < w.len() ==> #[trigger] w[k] > isize::MIN,
+        0 <= i, 0 <= j, i + j <= w.len(),
+        trace(t, start, w.take(i)) == Some(head), trace(t, start, inv_word(w).take(j)) == Some(tail),
+        act_word(act, phi(start), w) == phi(start),
+    ensures act_word(act, phi(head as int), w.subrange(i, w.len() - j)) == phi(tail as int)
+{
+    let n = w.len() as int;
+    let p = w.take(i); let m = w.subrange(i, n - j); let s = w.skip(n - j);
+    assert(w =~= p + m + s);
+    assert(inv_word(w).take(j) =~= inv_word(s)) by {
+        assert forall|k: int| 0 <= k < j implies inv_word(w).take(j)[k] == inv_word(s)[k] by { assert(s[s.len() - 1 - k] == w[n - 1 - k]); }
+    }
+    assert(gens_ok(t, p)) by { assert forall|k: int| 0 <= k < p.len() implies t.gen_ok(#[trigger] p[k] as int) by { assert(p[k] == w[k]); } }
+    assert(gens_ok(t, inv_word(s))) by { assert forall|k: int| 0 <= k < inv_word(s).len() implies t.gen_ok(#[trigger] inv_word(s)[k] as int) by { assert(t.gen_ok(w[n - 1 - k] as int)); assert(s[s.len() - 1 - k] == w[n - 1 - k]); } }
+    lemma_trace_phi(t, act, x0, phi, start, p);
+    lemma_trace_phi(t, act, x0, phi, start, inv_word(s));
+    let xs = phi(start);
+    lemma_word_concat(act, xs, p + m, s);
+    lemma_word_concat(act, xs, p, m);
+    let y = act_word(act, phi(head as int), m);
+    assert(act_word(act, xs, p) == phi(head as int));
+    assert(act_word(act, xs, p + m) == y);
+    assert(act_word(act, xs, p + m + s) == xs);
+    assert(act_word(act, y, s) == xs);
+    assert forall|k: int| 0 <= k < s.len() implies #[trigger] s[k] != 0 && -(t.nr_gens as int) <= s[k] <= t.nr_gens && s[k] > isize::MIN by { assert(s[k] == w[n - j + k]); assert(t.gen_ok(w[n - j + k] as int)); }
+    lemma_word_inv(act, t.nr_gens as int, y, s);
+}
+
+// U is kept from (t0, p0) to (t1, p1): every model that maps from the first maps from the second
+pub open spec fn ukeep(t0: &CosetTable, p0: Seq<(int, int)>, t1: &CosetTable, p1: Seq<(int, int)>) -> bool {
+    forall|act: spec_fn(int, int) -> int, x0: int| #[trigger] uinv(t0, p0, act, x0) && m1(act, t0.nr_gens as int) ==> uinv(t1, p1, act, x0)
+}
+proof fn lemma_ukeep_step(t0: &CosetTable, p0: Seq<(int, int)>, t1: &CosetTable, p1: Seq<(int, int)>)
+    requires forall|act: spec_fn(int, int) -> int, x0: int, phi: spec_fn(int) -> int| #[trigger] uadm(t0, p0, act, x0, phi) && m1(act, t0.nr_gens as int) ==> uadm(t1, p1, act, x0, phi)
+    ensures ukeep(t0, p0, t1, p1)
+{
+    assert forall|act: spec_fn(int, int) -> int, x0: int| #[trigger] uinv(t0, p0, act, x0) && m1(act, t0.nr_gens as int) implies uinv(t1, p1, act, x0) by {
+        let phi = choose|phi: spec_fn(int) -> int| #[trigger] uadm(t0, p0, act, x0, phi);
+        assert(uadm(t1, p1, act, x0, phi));
+    }
+}
+proof fn lemma_ukeep_trans(t0: &CosetTable, p0: Seq<(int, int)>, t1: &CosetTable, p1: Seq<(int, int)>, t2: &CosetTable, p2: Seq<(int, int)>)
+    requires ukeep(t0, p0, t1, p1), ukeep(t1, p1, t2, p2), t1.nr_gens == t0.nr_gens
+    ensures ukeep(t0, p0, t2, p2)
+{
+    assert forall|act: spec_fn(int, int) -> int, x0: int| #[trigger] uinv(t0, p0, act, x0) && m1(act, t0.nr_gens as int) implies uinv(t2, p2, act, x0) by {
+        assert(uinv(t1, p1, act, x0));
+    }
+}
+
+// phi survives a change of the pending pairs that it respects
+proof fn lemma_u_pend(t: &CosetTable, p1: Seq<(int, int)>, p2: Seq<(int, int)>, act: spec_fn(int, int) -> int, x0: int, phi: spec_fn(int) -> int)
+    requires uadm(t, p1, act, x0, phi), forall|k: int| 0 <= k < p2.len() ==> phi((#[trigger] p2[k]).0) == phi(p2[k].1)
+    ensures uadm(t, p2, act, x0, phi)
+{}
+
+// phi identifies the g-images of two rows it identifies
+proof fn lemma_u_images(t: &CosetTable, pend: Seq<(int, int)>, act: spec_fn(int, int) -> int, x0: int, phi: spec_fn(int) -> int, a: int, b: int, g: int)
+    requires uadm(t, pend, act, x0, phi), 0 <= a < t.table@.len(), 0 <= b < t.table@.len(), t.gen_ok(g), t.raw(a, g) >= 0, t.raw(b, g) >= 0, phi(a) == phi(b)
+    ensures phi(t.part.rep(t.raw(a, g))) == phi(t.part.rep(t.raw(b, g)))
+{
+    assert(phi(t.part.rep(t.raw(a, g))) == phi(t.raw(a, g)));
+    assert(phi(t.part.rep(t.raw(b, g))) == phi(t.raw(b, g)));
+}
+
+proof fn lemma_u_set(t0: &CosetTable, t1: &CosetTable, pend: Seq<(int, int)>, act: spec_fn(int, int) -> int, x0: int, phi: spec_fn(int) -> int, a: int, b: int, g: int, ag: int)
+    requires uadm(t0, pend, act, x0, phi), same_rows(t0, t1), t1.part == t0.part,
+        0 <= a < t0.table@.len(), 0 <= b < t0.table@.len(), t0.gen_ok(g), t0.raw(a, g) >= 0, ag == t0.part.rep(t0.raw(a, g)), phi(a) == phi(b),
+        t1.raw(b, g) == ag,
+        forall|c2: int, g2: int| 0 <= c2 < t0.table@.len() && t0.col_ok(g2) && !(c2 == b && g2 == g) ==> #[trigger] t1.raw(c2, g2) == t0.raw(c2, g2),
+    ensures uadm(t1, pend, act, x0, phi)
+{
+    assert(resp(t1, pend, phi));
+    assert forall|c: int, h: int| 0 <= c < t1.table@.len() && t1.gen_ok(h) && t1.raw(c, h) >= 0 implies phi(#[trigger] t1.raw(c, h)) == act(phi(c), h) by {
+        if c == b && h == g {
+            assert(phi(t0.part.rep(t0.raw(a, g))) == phi(t0.raw(a, g)));
+            assert(phi(t0.raw(a, g)) == act(phi(a), g));
+        } else {
+            assert(t1.raw(c, h) == t0.raw(c, h));
+        }
+    }
+}
+
+proof fn lemma_u_unite(t0: &CosetTable, t1: &CosetTable, q: Seq<(int, int)>, a: int, b: int, act: spec_fn(int, int) -> int, x0: int, phi: spec_fn(int) -> int)
+    requires rows_ok(t0), same_rows(t0, t1), uadm(t0, q.push((a, b)), act, x0, phi), t0.part.rep(a) == a, t0.part.rep(b) == b,
+        united(|z: int| t0.part.rep(z), |z: int| t1.part.rep(z), a, b),
+        forall|c2: int, g2: int| 0 <= c2 < t0.table@.len() && t0.col_ok(g2) ==> #[trigger] t1.raw(c2, g2) == t0.raw(c2, g2),
+    ensures uadm(t1, q, act, x0, phi)
+{
+    let p = q.push((a, b));
+    let ra = |z: int| t0.part.rep(z);
+    let rb = |z: int| t1.part.rep(z);
+    assert(p[q.len() as int] == (a, b));
+    assert(phi(p[q.len() as int].0) == phi(p[q.len() as int].1));
+    assert(phi(a) == phi(b));
+    assert(rb(a) == rb(b) && (rb(a) == a || rb(a) == b));
+    assert forall|u: int| #[trigger] phi(t1.part.rep(u)) == phi(u) by {
+        assert(rb(u) == (if ra(u) == ra(a) || ra(u) == ra(b) { rb(a) } else { ra(u) }));
+        assert(phi(t0.part.rep(u)) == phi(u));
+    }
+    assert forall|k: int| 0 <= k < q.len() implies phi((#[trigger] q[k]).0) == phi(q[k].1) by { assert(p[k] == q[k]); assert(phi(p[k].0) == phi(p[k].1)); }
+    assert forall|c: int, h: int| 0 <= c < t1.table@.len() && t1.gen_ok(h) && t1.raw(c, h) >= 0 implies phi(#[trigger] t1.raw(c, h)) == act(phi(c), h) by {
+        assert(t1.raw(c, h) == t0.raw(c, h));
+    }
+}
+
+// what scan_both_ways reports, read in a model: with no gap the two ends are the same point, with a gap of one letter they are linked by it
+proof fn lemma_scan_link(t: &CosetTable, act: spec_fn(int, int) -> int, x0: int, phi: spec_fn(int) -> int, w: Seq<isize>, start: int, res: (usize, usize, usize, isize))
+    requires rows_ok(t), uadm(t, Seq::<(int, int)>::empty(), act, x0, phi), m1(act, t.nr_gens as int), 0 <= start < t.table@.len(),
+        cols_ok(t, w), reduced(w), act_word(act, phi(start), w) == phi(start),
+        exists|i: int, j: int| #![trigger w.take(i), inv_word(w).take(j)] 0 <= i && 0 <= j && i + j + res.2 == w.len()
+            && trace(t, start, w.take(i)) == Some(res.0) && trace(t, start, inv_word(w).take(j)) == Some(res.1) && (res.2 >= 1 ==> res.3 == w[i]),
+    ensures res.2 == 0 ==> phi(res.0 as int) == phi(res.1 as int), res.2 == 1 ==> act(phi(res.0 as int), res.3 as int) == phi(res.1 as int)
+{
+    let (i, j) = choose|i: int, j: int| #![trigger w.take(i), inv_word(w).take(j)] 0 <= i && 0 <= j && i + j + res.2 == w.len()
+            && trace(t, start, w.take(i)) == Some(res.0) && trace(t, start, inv_word(w).take(j)) == Some(res.1) && (res.2 >= 1 ==> res.3 == w[i]);
+    lemma_gens_ok(t, w);
+    assert forall|k: int| 0 <= k < w.len() implies #[trigger] w[k] > isize::MIN by { }
+    lemma_scan_phi(t, act, x0, phi, w, start, res.0, res.1, i, j);
+    let m = w.subrange(i, w.len() - j);
+    if res.2 == 0 { assert(m.len() == 0); }
+    if res.2 == 1 {
+        assert(m.len() == 1 && m.last() == w[i]);
+        assert(m.drop_last() =~= Seq::<isize>::empty());
+        assert(act_word(act, phi(res.0 as int), m.drop_last()) == phi(res.0 as int));
+    }
+}
+
+// U survives join(c, d, g) of two existing rows which the model links by g
+proof fn lemma_u_join(t0: &CosetTable, t1: &CosetTable, c: int, d: int, g: int, act: spec_fn(int, int) -> int, x0: int, phi: spec_fn(int) -> int)
+    requires uadm(t0, Seq::<(int, int)>::empty(), act, x0, phi), m1(act, t0.nr_gens as int), same_rows(t0, t1), t1.part == t0.part,
+        0 <= c < t0.table@.len(), 0 <= d < t0.table@.len(), t0.gen_ok(g), act(phi(c), g) == phi(d),
+        t1.raw(c, g) == d, t1.raw(d, -g) == c,
+        forall|c2: int, g2: int| 0 <= c2 < t1.table@.len() && t0.col_ok(g2) && !(c2 == c && g2 == g) && !(c2 == d && g2 == -g) ==> #[trigger] t1.raw(c2, g2) == t0.raw(c2, g2),
+    ensures uadm(t1, Seq::<(int, int)>::empty(), act, x0, phi)
+{
+    assert(resp(t1, Seq::<(int, int)>::empty(), phi));
+    assert forall|x: int, h: int| 0 <= x < t1.table@.len() && t1.gen_ok(h) && t1.raw(x, h) >= 0 implies phi(#[trigger] t1.raw(x, h)) == act(phi(x), h) by {
+        if x == c && h == g { }
+        else if x == d && h == -g { assert(act(act(phi(c), g), -g) == phi(c)); }
+        else { assert(t1.raw(x, h) == t0.raw(x, h)); }
+    }
+}
+
+// U survives the definition of a new row n = i.g: phi is extended by phi(n) = phi(i).g
+proof fn lemma_u_join_new(t0: &CosetTable, t1: &CosetTable, i: int, n: int, g: int, act: spec_fn(int, int) -> int, x0: int, phi: spec_fn(int) -> int)
+    requires rows_ok(t0), uadm(t0, Seq::<(int, int)>::empty(), act, x0, phi), m1(act, t0.nr_gens as int), t1.nr_gens == t0.nr_gens, t1.part == t0.part,
+        n == t0.table@.len(), t1.table@.len() == n + 1, 0 <= i < n, t0.gen_ok(g),
+        t1.raw(i, g) == n, t1.raw(n, -g) == i,
+        forall|c2: int, g2: int| 0 <= c2 < t1.table@.len() && t0.col_ok(g2) && !(c2 == i && g2 == g) && !(c2 == n && g2 == -g)
+            ==> #[trigger] t1.raw(c2, g2) == (if c2 < t0.table@.len() { t0.raw(c2, g2) } else { -1 }),
+    ensures uinv(t1, Seq::<(int, int)>::empty(), act, x0)
+{
+    let e = Seq::<(int, int)>::empty();
+    let phi1 = |x: int| if x == n { act(phi(i), g) } else { phi(x) };
+    assert(uadm(t1, e, act, x0, phi1)) by {
+        assert forall|u: int| #[trigger] phi1(t1.part.rep(u)) == phi1(u) by {
+            if u == n { assert(t0.part.rep(n) == n); }
+            else {
+                assert(phi(t0.part.rep(u)) == phi(u));
+                if t0.part.rep(u) == n { assert(t0.part.rep(t0.part.rep(u)) == t0.part.rep(u)); if 0 <= u < n { assert(0 <= t0.part.rep(u) < n); } else { assert(t0.part.rep(u) == u); } }
+            }
+        }
+        assert forall|x: int, h: int| 0 <= x < t1.table@.len() && t1.gen_ok(h) && t1.raw(x, h) >= 0 implies phi1(#[trigger] t1.raw(x, h)) == act(phi1(x), h) by {
+            if x == i && h == g { }
+            else if x == n && h == -g { assert(act(act(phi(i), g), -g) == phi(i)); }
+            else {
+                assert(t1.raw(x, h) == (if x < n { t0.raw(x, h) } else { -1 }));
+                assert(x < n);
+                assert(-1 <= t0.raw(x, h) < n);
+            }
+        }
+    }
+}
+
+// =====================================================================================================
 // C11: "the action is transitive".  T: every row is connected to row 0, where x and y are connected iff EVERY function that is
 // constant on the classes, on the pending pairs and along every entry of a live row agrees on them.
 // =====================================================================================================
@@ -988,12 +1257,17 @@ impl CosetTable {
             kinv(old(self), Seq::<(int, int)>::empty()) ==> kinv(final(self), Seq::<(int, int)>::empty()),
             // ... and so does the connection of every row with row 0
             kinv(old(self), Seq::<(int, int)>::empty()) && tinv(old(self), Seq::<(int, int)>::empty()) ==> tinv(final(self), Seq::<(int, int)>::empty()),
+            // every model that maps from the table with a and b identified maps from the result
+            ukeep(old(self), seq![(a as int, b as int)], final(self), Seq::<(int, int)>::empty()),
     {
         let mut queue: VecDeque<(usize, usize)> = VecDeque::from([(a, b)]);
         let ghost mut qg: Seq<(usize, usize)> = queue@;
         let ghost k0 = kinv(old(self), Seq::<(int, int)>::empty());
         let ghost z0 = k0 && tinv(old(self), Seq::<(int, int)>::empty());
+        let ghost pz = seq![(a as int, b as int)];
         proof {
+            assert(qpairs(queue@) =~= pz);
+            lemma_ukeep_step(self, pz, self, qpairs(queue@));
             if k0 { lemma_kinv_pend(self, Seq::<(int, int)>::empty(), qpairs(queue@)); }
             if z0 { lemma_tinv_step(self, Seq::<(int, int)>::empty(), self, qpairs(queue@)); }
         }
@@ -1009,10 +1283,13 @@ impl CosetTable {
                 z0 ==> k0,
                 z0 ==> tinv(self, qpairs(queue@)),
                 z0 && queue@.len() == 0 ==> tinv(self, Seq::<(int, int)>::empty()),
+                ukeep(old(self), pz, self, qpairs(queue@)),
+                queue@.len() == 0 ==> ukeep(old(self), pz, self, Seq::<(int, int)>::empty()),
             ensures
                 rows_ok(self), self.nr_gens == old(self).nr_gens, self.table@.len() == old(self).table@.len(), grows(old(self), self),
                 k0 ==> kinv(self, Seq::<(int, int)>::empty()),
                 z0 ==> tinv(self, Seq::<(int, int)>::empty()),
+                ukeep(old(self), pz, self, Seq::<(int, int)>::empty()),
         {
             let ghost a1 = a as int; let ghost b1 = b as int;
             proof {
@@ -1049,6 +1326,30 @@ impl CosetTable {
             }
 
             proof {
+                // universality: the same phi serves
+                assert forall|act: spec_fn(int, int) -> int, x0: int, phi: spec_fn(int) -> int| #[trigger] uadm(self, qpairs(qg), act, x0, phi) && m1(act, self.nr_gens as int)
+                    implies uadm(self, pp, act, x0, phi) by {
+                    assert(qpairs(qg)[0] == (a1, b1));
+                    assert(phi(qpairs(qg)[0].0) == phi(qpairs(qg)[0].1));
+                    assert(phi(self.part.rep(a1)) == phi(a1) && phi(self.part.rep(b1)) == phi(b1));
+                    assert forall|k: int| 0 <= k < pp.len() implies phi((#[trigger] pp[k]).0) == phi(pp[k].1) by {
+                        if k < qq.len() { assert(qg[k + 1] == queue@[k]); assert(pp[k] == qpairs(qg)[k + 1]); assert(phi(qpairs(qg)[k + 1].0) == phi(qpairs(qg)[k + 1].1)); }
+                    }
+                    lemma_u_pend(self, qpairs(qg), pp, act, x0, phi);
+                }
+                lemma_ukeep_step(self, qpairs(qg), self, pp);
+                lemma_ukeep_trans(old(self), pz, self, qpairs(qg), self, pp);
+                if a == b {
+                    assert forall|act: spec_fn(int, int) -> int, x0: int, phi: spec_fn(int) -> int| #[trigger] uadm(self, pp, act, x0, phi) && m1(act, self.nr_gens as int)
+                        implies uadm(self, qq, act, x0, phi) by {
+                        assert forall|k: int| 0 <= k < qq.len() implies phi((#[trigger] qq[k]).0) == phi(qq[k].1) by { assert(pp[k] == qq[k]); assert(phi(pp[k].0) == phi(pp[k].1)); }
+                        lemma_u_pend(self, pp, qq, act, x0, phi);
+                    }
+                    lemma_ukeep_step(self, pp, self, qq);
+                    lemma_ukeep_trans(old(self), pz, self, pp, self, qq);
+                }
+            }
+            proof {
                 if k0 && a == b {
                     // the pair is trivial: dropping it changes nothing
                     assert forall|f: spec_fn(int) -> int| #[trigger] resp(self, qq, f) implies resp(self, pp, f) by {
@@ -1073,6 +1374,7 @@ impl CosetTable {
                         k0 ==> kinv(self, qpairs(queue@).push((a as int, b as int))),
                         z0 ==> k0,
                         z0 ==> tinv(self, qpairs(queue@).push((a as int, b as int))),
+                        ukeep(old(self), pz, self, qpairs(queue@).push((a as int, b as int))),
                         k0 ==> forall|h: int| self.gen_ok(h) && gen_index(self, h) < it.index() ==> #[trigger] synced(self, qpairs(queue@).push((a as int, b as int)), a as int, b as int, h),
                 {
                     let ghost idx = it.index() as int;
@@ -1087,6 +1389,23 @@ impl CosetTable {
                             queue.push_back((ag, bg));
                             proof {
                                 assert forall|k: int| 0 <= k < queue@.len() implies (#[trigger] queue@[k]).0 < self.table@.len() && queue@[k].1 < self.table@.len() by { if k < q0.len() { assert(queue@[k] == q0[k]); } }
+                                {
+                                    let p1u = qpairs(queue@).push((a as int, b as int));
+                                    assert forall|act: spec_fn(int, int) -> int, x0: int, phi: spec_fn(int) -> int| #[trigger] uadm(self, p0, act, x0, phi) && m1(act, self.nr_gens as int)
+                                        implies uadm(self, p1u, act, x0, phi) by {
+                                        assert(p0[q0.len() as int] == (a as int, b as int));
+                                        assert(phi(p0[q0.len() as int].0) == phi(p0[q0.len() as int].1));
+                                        lemma_u_images(self, p0, act, x0, phi, a as int, b as int, g as int);
+                                        assert forall|k: int| 0 <= k < p1u.len() implies phi((#[trigger] p1u[k]).0) == phi(p1u[k].1) by {
+                                            if k < q0.len() { assert(p1u[k] == p0[k]); assert(phi(p0[k].0) == phi(p0[k].1)); }
+                                            else if k == q0.len() { assert(p1u[k] == (ag as int, bg as int)); }
+                                            else { assert(p1u[k] == (a as int, b as int)); }
+                                        }
+                                        lemma_u_pend(self, p0, p1u, act, x0, phi);
+                                    }
+                                    lemma_ukeep_step(self, p0, self, p1u);
+                                    lemma_ukeep_trans(old(self), pz, self, p0, self, p1u);
+                                }
                                 if k0 {
                                     let p1 = qpairs(queue@).push((a as int, b as int));
                                     // one more pending pair: every function admissible now was admissible before
@@ -1124,6 +1443,14 @@ impl CosetTable {
                             self.set(b, g, ag);
                             proof {
                                 assert(grows(&s0, self)); lemma_grows_trans(old(self), &s0, self);
+                                assert forall|act: spec_fn(int, int) -> int, x0: int, phi: spec_fn(int) -> int| #[trigger] uadm(&s0, p0, act, x0, phi) && m1(act, s0.nr_gens as int)
+                                    implies uadm(self, p0, act, x0, phi) by {
+                                    assert(p0[q0.len() as int] == (a as int, b as int));
+                                    assert(phi(p0[q0.len() as int].0) == phi(p0[q0.len() as int].1));
+                                    lemma_u_set(&s0, self, p0, act, x0, phi, a as int, b as int, g as int, ag as int);
+                                }
+                                lemma_ukeep_step(&s0, p0, self, p0);
+                                lemma_ukeep_trans(old(self), pz, &s0, p0, self, p0);
                                 if k0 {
                                     assert(eqv(&s0, p0, a as int, b as int)) by {
                                         assert forall|f: spec_fn(int) -> int| #[trigger] resp(&s0, p0, f) implies f(a as int) == f(b as int) by {
@@ -1156,6 +1483,14 @@ impl CosetTable {
                         self.set(a, g, bg);
                         proof {
                             assert(grows(&s0, self)); lemma_grows_trans(old(self), &s0, self);
+                            assert forall|act: spec_fn(int, int) -> int, x0: int, phi: spec_fn(int) -> int| #[trigger] uadm(&s0, p0, act, x0, phi) && m1(act, s0.nr_gens as int)
+                                implies uadm(self, p0, act, x0, phi) by {
+                                assert(p0[q0.len() as int] == (a as int, b as int));
+                                assert(phi(p0[q0.len() as int].0) == phi(p0[q0.len() as int].1));
+                                lemma_u_set(&s0, self, p0, act, x0, phi, b as int, a as int, g as int, bg as int);
+                            }
+                            lemma_ukeep_step(&s0, p0, self, p0);
+                            lemma_ukeep_trans(old(self), pz, &s0, p0, self, p0);
                             if k0 {
                                 assert(eqv(&s0, p0, b as int, a as int)) by {
                                     assert forall|f: spec_fn(int) -> int| #[trigger] resp(&s0, p0, f) implies f(b as int) == f(a as int) by {
@@ -1220,7 +1555,7 @@ impl CosetTable {
                         assert(r0.rep(r0.rep(a as int)) == r0.rep(a as int));
                         assert(r0.rep(r0.rep(b as int)) == r0.rep(b as int));
                     }
-                    assert forall|x: int| x >= self.table@.len() implies #[trigger] self.part.rep(x) == x by {
+                    assert forall|x: int| !(0 <= x < self.table@.len()) implies #[trigger] self.part.rep(x) == x by {
                         assert(rb(x) == (if ra(x) == ra(a as int) || ra(x) == ra(b as int) { rb(a as int) } else { ra(x) }));
                         assert(r0.rep(x) == x);
                         assert(0 <= r0.rep(a as int) < self.table@.len());
@@ -1235,6 +1570,12 @@ impl CosetTable {
                         }
                     }
                     lemma_grows_trans(old(self), &t0, self);
+                    assert forall|act: spec_fn(int, int) -> int, x0: int, phi: spec_fn(int) -> int| #[trigger] uadm(&t0, pp2, act, x0, phi) && m1(act, t0.nr_gens as int)
+                        implies uadm(self, qq2, act, x0, phi) by {
+                        lemma_u_unite(&t0, self, qq2, a as int, b as int, act, x0, phi);
+                    }
+                    lemma_ukeep_step(&t0, pp2, self, qq2);
+                    lemma_ukeep_trans(old(self), pz, &t0, pp2, self, qq2);
                     if k0 {
                         assert forall|g: int| t0.gen_ok(g) implies #[trigger] synced(&t0, pp2, a as int, b as int, g) by {
                             let j = gen_index(&t0, g);
@@ -1320,6 +1661,20 @@ proof fn lemma_kinv_join(t0: &CosetTable, t1: &CosetTable, c: int, d: int, g: in
     }
 }
 
+// the word fixes the point of `start` in the model, whatever map is used
+pub open spec fn wfix(t: &CosetTable, act: spec_fn(int, int) -> int, x0: int, w: Seq<isize>, start: int) -> bool {
+    forall|phi: spec_fn(int) -> int| #[trigger] uadm(t, Seq::<(int, int)>::empty(), act, x0, phi) ==> act_word(act, phi(start), w) == phi(start)
+}
+// scanning a word that the model fixes at `start` keeps U for that model
+pub open spec fn uscan(t0: &CosetTable, t1: &CosetTable, w: Seq<isize>, start: int) -> bool {
+    forall|act: spec_fn(int, int) -> int, x0: int| #[trigger] uinv(t0, Seq::<(int, int)>::empty(), act, x0) && m1(act, t0.nr_gens as int) && wfix(t0, act, x0, w, start)
+        ==> uinv(t1, Seq::<(int, int)>::empty(), act, x0)
+}
+// U for every model of the scanned words
+pub open spec fn uall(t: &CosetTable, rels: Set<FreeWord>, subs: Seq<FreeWord>) -> bool {
+    forall|act: spec_fn(int, int) -> int, x0: int| #[trigger] emodel(t.nr_gens as int, rels, subs, act, x0) ==> uinv(t, Seq::<(int, int)>::empty(), act, x0)
+}
+
 //@ begin src/fpgroups/cosets.rs :: - :: fn scan_and_connect
 //@ rw R16 /\) -> Option<\(usize, isize\)>/) -> (r: Option<(usize, isize)>)/
 fn scan_and_connect(
@@ -1333,7 +1688,11 @@ fn scan_and_connect(
         old(table).part.rep(start as int) == start && kinv(old(table), Seq::<(int, int)>::empty()) ==> kinv(final(table), Seq::<(int, int)>::empty()),
         old(table).part.rep(start as int) == start && kinv(old(table), Seq::<(int, int)>::empty()) && tinv(old(table), Seq::<(int, int)>::empty())
             ==> tinv(final(table), Seq::<(int, int)>::empty()),
+        // universality: a word that a model fixes at start never forces an identification the model does not make
+        uscan(old(table), final(table), w@, start as int),
 {
+    let ghost tb = *table;
+    proof { w.lemma_reduced(); }
     let (head, tail, gap, c) = scan_both_ways(table, w, start);
 
     if gap == 1 {
@@ -1349,11 +1708,27 @@ fn scan_and_connect(
                 lemma_kinv_join(&t0, table, head as int, tail as int, c as int);
                 if tinv(&t0, Seq::<(int, int)>::empty()) { lemma_tinv_join(&t0, table, head as int, tail as int, c as int); }
             }
+            assert forall|act: spec_fn(int, int) -> int, x0: int| #[trigger] uinv(&t0, Seq::<(int, int)>::empty(), act, x0) && m1(act, t0.nr_gens as int) && wfix(&t0, act, x0, w@, start as int)
+                implies uinv(table, Seq::<(int, int)>::empty(), act, x0) by {
+                let phi = choose|phi: spec_fn(int) -> int| #[trigger] uadm(&t0, Seq::<(int, int)>::empty(), act, x0, phi);
+                lemma_scan_link(&t0, act, x0, phi, w@, start as int, (head, tail, gap, c));
+                lemma_u_join(&t0, table, head as int, tail as int, c as int, act, x0, phi);
+            }
         }
         Some((head, c))
     } else {
         if gap == 0 && head != tail {
             table.merge(head, tail);
+            proof {
+                assert forall|act: spec_fn(int, int) -> int, x0: int| #[trigger] uinv(&tb, Seq::<(int, int)>::empty(), act, x0) && m1(act, tb.nr_gens as int) && wfix(&tb, act, x0, w@, start as int)
+                    implies uinv(table, Seq::<(int, int)>::empty(), act, x0) by {
+                    let phi = choose|phi: spec_fn(int) -> int| #[trigger] uadm(&tb, Seq::<(int, int)>::empty(), act, x0, phi);
+                    lemma_scan_link(&tb, act, x0, phi, w@, start as int, (head, tail, gap, c));
+                    let pz = seq![(head as int, tail as int)];
+                    assert(uadm(&tb, pz, act, x0, phi)) by { assert forall|k: int| 0 <= k < pz.len() implies phi((#[trigger] pz[k]).0) == phi(pz[k].1) by { } }
+                    assert(uinv(&tb, pz, act, x0));
+                }
+            }
         }
         None
     }
@@ -1407,6 +1782,8 @@ impl CosetTable {
             all_complete(self) && inv_consistent(self) ==> valid(&result),
             // ... and every row is reached from row 0 if every live row was reached from the class of row 0
             reach_all(self) ==> transitive(&result),
+            // every model that maps from the table maps from its compacted form
+            forall|act: spec_fn(int, int) -> int, x0: int| #[trigger] uinv(self, Seq::<(int, int)>::empty(), act, x0) ==> uinv(&result, Seq::<(int, int)>::empty(), act, x0),
     {
         // number the classes in the order of their first members, so that the
         // class of row 0 (the subgroup itself) stays row 0
@@ -1539,6 +1916,29 @@ impl CosetTable {
             }
             assert forall|c: int| canonical(self, c) implies 0 <= #[trigger] nw[c] < self.table@.len() by { assert(old_to_new@[self.part.rep(c)] != unset); }
             assert(compacted(self, &result, nw));
+            assert forall|act: spec_fn(int, int) -> int, x0: int| #[trigger] uinv(self, Seq::<(int, int)>::empty(), act, x0) implies uinv(&result, Seq::<(int, int)>::empty(), act, x0) by {
+                let e = Seq::<(int, int)>::empty();
+                let phi = choose|phi: spec_fn(int) -> int| #[trigger] uadm(self, e, act, x0, phi);
+                let phr = |r: int| if 0 <= r < n { phi(n2o[r]) } else { x0 };
+                assert(uadm(&result, e, act, x0, phr)) by {
+                    let k0 = self.part.rep(0);
+                    assert(old_to_new@[k0] == 0 && n2o[0] == k0);
+                    assert(phi(self.part.rep(0)) == phi(0));
+                    assert forall|u: int| #[trigger] phr(result.part.rep(u)) == phr(u) by { assert(result.part.rep(u) == u); }
+                    assert forall|x: int, g: int| 0 <= x < result.table@.len() && result.gen_ok(g) && result.raw(x, g) >= 0 implies phr(#[trigger] result.raw(x, g)) == act(phr(x), g) by {
+                        let k = n2o[x];
+                        assert(res_entry(&result, x, g) == entry_spec(self, old_to_new@, n2o, x, g, len, 0));
+                        assert(self.gen_ok(g));
+                        assert(self.act(k, g).is_some());
+                        lemma_act_in_range(self, k, g);
+                        let c = self.act(k, g).unwrap() as int;
+                        assert(old_to_new@[self.part.rep(c)] != unset);
+                        assert(n2o[old_to_new@[c] as int] == c);
+                        assert(phi(self.part.rep(self.raw(k, g))) == phi(self.raw(k, g)));
+                        assert(phi(self.raw(k, g)) == act(phi(k), g));
+                    }
+                }
+            }
             if reach_all(self) {
                 assert forall|r: int| #[trigger] is_row(&result, r) implies exists|w: Seq<isize>| gens_ok(&result, w) && #[trigger] trace(&result, 0, w) == Some(r as usize) by {
                     let k = n2o[r];
@@ -1646,6 +2046,7 @@ fn __limit_guard(b: bool)
     ensures b
 { assert!(b, "Reached coset table limit of 100_000") }
 
+pub open spec fn all_triv(act: spec_fn(int, int) -> int, ws: Seq<FreeWord>) -> bool { forall|m: int| 0 <= m < ws.len() ==> triv(act, (#[trigger] ws[m])@) }
 pub open spec fn all_within(ws: Seq<FreeWord>, b: int) -> bool { forall|m: int| 0 <= m < ws.len() ==> within((#[trigger] ws[m])@, b) }
 
 //@ begin src/fpgroups/cosets.rs :: - :: fn expanded_relator_set
@@ -1658,6 +2059,9 @@ fn expanded_relator_set(relators: &Vec<FreeWord>) -> (rels: BTreeSet<FreeWord>)
         // every relator is a member, and no member uses a letter beyond those of the relators
         forall|m: int| 0 <= m < relators@.len() ==> has_view(rels@, (#[trigger] relators@[m])@),
         forall|u: FreeWord, b: int| #![trigger rels@.contains(u), all_within(relators@, b)] rels@.contains(u) && all_within(relators@, b) ==> within(u@, b),
+        // in every model in which the relators act trivially, so does every member (rotations and inverses of relators)
+        forall|act: spec_fn(int, int) -> int, n: int, u: FreeWord| #![trigger m1(act, n), rels@.contains(u)]
+            m1(act, n) && all_within(relators@, n) && all_triv(act, relators@) && rels@.contains(u) ==> triv(act, u@),
 {
     let mut rels = __set_new();
     for rel in it: relators
@@ -1666,6 +2070,8 @@ fn expanded_relator_set(relators: &Vec<FreeWord>) -> (rels: BTreeSet<FreeWord>)
             forall|m: int| 0 <= m < relators@.len() ==> *(#[trigger] it.seq()[m]) == relators@[m],
             forall|m: int| 0 <= m < it.index() ==> has_view(rels@, (#[trigger] relators@[m])@),
             forall|u: FreeWord, b: int| #![trigger rels@.contains(u), all_within(relators@, b)] rels@.contains(u) && all_within(relators@, b) ==> within(u@, b),
+            forall|act: spec_fn(int, int) -> int, n: int, u: FreeWord| #![trigger m1(act, n), rels@.contains(u)]
+                m1(act, n) && all_within(relators@, n) && all_triv(act, relators@) && rels@.contains(u) ==> triv(act, u@),
     {
         let ghost r0 = rels@;
         let ghost idx = it.index() as int;
@@ -1685,6 +2091,10 @@ fn expanded_relator_set(relators: &Vec<FreeWord>) -> (rels: BTreeSet<FreeWord>)
             }
             assert forall|u: FreeWord, b: int| #![trigger rels@.contains(u), all_within(relators@, b)] rels@.contains(u) && all_within(relators@, b) implies within(u@, b) by {
                 if !r0.contains(u) { assert(pg.contains(u)); assert(within(relators@[idx]@, b)); assert(within(rel@, b)); }
+            }
+            assert forall|act: spec_fn(int, int) -> int, n: int, u: FreeWord| #![trigger m1(act, n), rels@.contains(u)]
+                m1(act, n) && all_within(relators@, n) && all_triv(act, relators@) && rels@.contains(u) implies triv(act, u@) by {
+                if !r0.contains(u) { assert(pg.contains(u)); assert(within(relators@[idx]@, n)); assert(triv(act, relators@[idx]@)); assert(within(rel@, n) && triv(act, rel@)); }
             }
         }
     }
@@ -1782,6 +2192,78 @@ proof fn lemma_trace_total(t: &CosetTable, row: int, w: Seq<isize>)
     }
 }
 
+// the model condition on the given relators (what the contract of coset_table speaks about)
+pub open spec fn umodel(n: int, rels: Seq<FreeWord>, subs: Seq<FreeWord>, act: spec_fn(int, int) -> int, x0: int) -> bool {
+    &&& m1(act, n)
+    &&& all_triv(act, rels)
+    &&& forall|m: int| 0 <= m < subs.len() ==> act_word(act, x0, (#[trigger] subs[m])@) == x0
+}
+
+proof fn lemma_uall_scan_rel(t0: &CosetTable, t1: &CosetTable, rels: Set<FreeWord>, subs: Seq<FreeWord>, u: FreeWord, start: int)
+    requires uall(t0, rels, subs), rels.contains(u), uscan(t0, t1, u@, start), t1.nr_gens == t0.nr_gens
+    ensures uall(t1, rels, subs)
+{
+    assert forall|act: spec_fn(int, int) -> int, x0: int| #[trigger] emodel(t1.nr_gens as int, rels, subs, act, x0) implies uinv(t1, Seq::<(int, int)>::empty(), act, x0) by {
+        assert(emodel(t0.nr_gens as int, rels, subs, act, x0));
+        assert(triv(act, u@));
+        assert(wfix(t0, act, x0, u@, start));
+    }
+}
+
+proof fn lemma_uall_scan_sub(t0: &CosetTable, t1: &CosetTable, rels: Set<FreeWord>, subs: Seq<FreeWord>, m: int, start: int)
+    requires uall(t0, rels, subs), 0 <= m < subs.len(), start == t0.part.rep(0), uscan(t0, t1, subs[m]@, start), t1.nr_gens == t0.nr_gens
+    ensures uall(t1, rels, subs)
+{
+    assert forall|act: spec_fn(int, int) -> int, x0: int| #[trigger] emodel(t1.nr_gens as int, rels, subs, act, x0) implies uinv(t1, Seq::<(int, int)>::empty(), act, x0) by {
+        assert(emodel(t0.nr_gens as int, rels, subs, act, x0));
+        assert forall|phi: spec_fn(int) -> int| #[trigger] uadm(t0, Seq::<(int, int)>::empty(), act, x0, phi) implies act_word(act, phi(start), subs[m]@) == phi(start) by {
+            assert(phi(t0.part.rep(0)) == phi(0));
+        }
+        assert(wfix(t0, act, x0, subs[m]@, start));
+    }
+}
+
+// a coincidence found by scanning a due word without gap is one every model makes
+proof fn lemma_uall_merge(t0: &CosetTable, t1: &CosetTable, rels: Set<FreeWord>, subs: Seq<FreeWord>, u: FreeWord, i: int, start: int, res: (usize, usize, usize, isize))
+    requires rows_ok(t0), uall(t0, rels, subs), due_at(rels, subs, i, u), start == t0.part.rep(i), 0 <= start < t0.table@.len(),
+        cols_ok(t0, u@), reduced(u@), res.2 == 0, t1.nr_gens == t0.nr_gens,
+        exists|a: int, b: int| #![trigger u@.take(a), inv_word(u@).take(b)] 0 <= a && 0 <= b && a + b + res.2 == u@.len()
+            && trace(t0, start, u@.take(a)) == Some(res.0) && trace(t0, start, inv_word(u@).take(b)) == Some(res.1) && (res.2 >= 1 ==> res.3 == u@[a]),
+        ukeep(t0, seq![(res.0 as int, res.1 as int)], t1, Seq::<(int, int)>::empty()),
+    ensures uall(t1, rels, subs)
+{
+    assert forall|act: spec_fn(int, int) -> int, x0: int| #[trigger] emodel(t1.nr_gens as int, rels, subs, act, x0) implies uinv(t1, Seq::<(int, int)>::empty(), act, x0) by {
+        assert(emodel(t0.nr_gens as int, rels, subs, act, x0));
+        assert(uinv(t0, Seq::<(int, int)>::empty(), act, x0));
+        let phi = choose|phi: spec_fn(int) -> int| #[trigger] uadm(t0, Seq::<(int, int)>::empty(), act, x0, phi);
+        if rels.contains(u) { assert(triv(act, u@)); }
+        else {
+            let m = choose|m: int| 0 <= m < subs.len() && #[trigger] subs[m] == u;
+            assert(act_word(act, x0, subs[m]@) == x0);
+            assert(phi(t0.part.rep(0)) == phi(0));
+        }
+        lemma_scan_link(t0, act, x0, phi, u@, start, res);
+        let pz = seq![(res.0 as int, res.1 as int)];
+        assert(uadm(t0, pz, act, x0, phi)) by { assert forall|k: int| 0 <= k < pz.len() implies phi((#[trigger] pz[k]).0) == phi(pz[k].1) by { } }
+        assert(uinv(t0, pz, act, x0));
+    }
+}
+
+proof fn lemma_uall_join_new(t0: &CosetTable, t1: &CosetTable, rels: Set<FreeWord>, subs: Seq<FreeWord>, i: int, n: int, g: int)
+    requires rows_ok(t0), uall(t0, rels, subs), t1.nr_gens == t0.nr_gens, t1.part == t0.part,
+        n == t0.table@.len(), t1.table@.len() == n + 1, 0 <= i < n, t0.gen_ok(g),
+        t1.raw(i, g) == n, t1.raw(n, -g) == i,
+        forall|c2: int, g2: int| 0 <= c2 < t1.table@.len() && t0.col_ok(g2) && !(c2 == i && g2 == g) && !(c2 == n && g2 == -g)
+            ==> #[trigger] t1.raw(c2, g2) == (if c2 < t0.table@.len() { t0.raw(c2, g2) } else { -1 }),
+    ensures uall(t1, rels, subs)
+{
+    assert forall|act: spec_fn(int, int) -> int, x0: int| #[trigger] emodel(t1.nr_gens as int, rels, subs, act, x0) implies uinv(t1, Seq::<(int, int)>::empty(), act, x0) by {
+        assert(emodel(t0.nr_gens as int, rels, subs, act, x0));
+        let phi = choose|phi: spec_fn(int) -> int| #[trigger] uadm(t0, Seq::<(int, int)>::empty(), act, x0, phi);
+        lemma_u_join_new(t0, t1, i, n, g, act, x0, phi);
+    }
+}
+
 //@ begin src/fpgroups/cosets.rs :: - :: fn coset_table
 //@ rw R16 /^\) -> CosetTable$/) -> (result: CosetTable)/
 //@ rw R19 /for i in 0\.\.\n([ \t]*)\{/let mut __i: usize = 0;\n\1loop\n\1{\n\1    let i = __i; __i += 1;/
@@ -1808,6 +2290,11 @@ pub fn coset_table(
         complete_table(&result), valid(&result),
         // C11: "the action is transitive": every row is reached from row 0 by a word in the generators
         transitive(&result),
+        // C11: "exactly [G:H] rows", as the universal property: into EVERY model -- points with an action of the generators in which inverse
+        // generators undo generators, the relators act trivially and the subgroup generators fix x0 -- there is a map phi of the rows with
+        // phi(0) = x0 and phi(r.g) = phi(r).g.  (For the model G/H with x0 = H, together with transitivity and the clauses above, phi is a
+        // bijection: no two rows are the same coset.)
+        forall|act: spec_fn(int, int) -> int, x0: int| #[trigger] umodel(nr_gens as int, relators@, subgroup_gens@, act, x0) ==> uinv(&result, Seq::<(int, int)>::empty(), act, x0),
         // C11: "every relator traced from every row returns to that row" ...
         forall|m: int, r: int| 0 <= m < relators@.len() && 0 <= r < result.table@.len() ==> #[trigger] trace(&result, r, relators@[m]@) == Some(r as usize),
         // ... "and every generator of H traced from row 0 returns to row 0"
@@ -1819,6 +2306,12 @@ pub fn coset_table(
         assert(all_within(relators@, nr_gens as int));
         assert forall|u: FreeWord| #[trigger] rels@.contains(u) implies within(u@, nr_gens as int) by { }
         assert(rows_ok(&table));
+        assert(uall(&table, rels@, subgroup_gens@)) by {
+            assert forall|act: spec_fn(int, int) -> int, x0: int| #[trigger] emodel(table.nr_gens as int, rels@, subgroup_gens@, act, x0) implies uinv(&table, Seq::<(int, int)>::empty(), act, x0) by {
+                let phi = |x: int| x0;
+                assert(uadm(&table, Seq::<(int, int)>::empty(), act, x0, phi)) by { assert forall|c: int, g: int| 0 <= c < table.table@.len() && table.gen_ok(g) && table.raw(c, g) >= 0 implies phi(#[trigger] table.raw(c, g)) == act(phi(c), g) by { assert(table.raw(0, g) == -1); } }
+            }
+        }
         assert(tinv(&table, Seq::<(int, int)>::empty())) by {
             assert forall|c: int| 0 <= c < table.table@.len() implies #[trigger] tconn(&table, Seq::<(int, int)>::empty(), c, 0) by { }
         }
@@ -1832,8 +2325,8 @@ pub fn coset_table(
             all_within(subgroup_gens@, nr_gens as int),
             forall|u: FreeWord| #[trigger] rels@.contains(u) ==> within(u@, nr_gens as int),
             forall|k: int| 0 <= k < __i && #[trigger] canonical(&table, k) ==> row_complete(&table, k),
-            kinv(&table, Seq::<(int, int)>::empty()), tinv(&table, Seq::<(int, int)>::empty()),
-        ensures rows_ok(&table), table.nr_gens == nr_gens, all_complete(&table), kinv(&table, Seq::<(int, int)>::empty()), tinv(&table, Seq::<(int, int)>::empty()),
+            kinv(&table, Seq::<(int, int)>::empty()), tinv(&table, Seq::<(int, int)>::empty()), uall(&table, rels@, subgroup_gens@),
+        ensures rows_ok(&table), table.nr_gens == nr_gens, all_complete(&table), kinv(&table, Seq::<(int, int)>::empty()), tinv(&table, Seq::<(int, int)>::empty()), uall(&table, rels@, subgroup_gens@),
     {
         let i = __i; __i += 1;
         if i >= table.len() {
@@ -1858,8 +2351,8 @@ pub fn coset_table(
                 forall|j: int| 0 <= j < __gens@.len() ==> table.gen_ok(#[trigger] __gens@[j] as int) && gen_index(&table, __gens@[j] as int) == j,
                 forall|g2: int| #[trigger] table.gen_ok(g2) ==> 0 <= gen_index(&table, g2) < __gens@.len() && __gens@[gen_index(&table, g2)] == g2,
                 prog(&table, i as int, __gens@, __gk as int),
-                kinv(&table, Seq::<(int, int)>::empty()), tinv(&table, Seq::<(int, int)>::empty()),
-            ensures rows_ok(&table), table.nr_gens == nr_gens, i < table.table@.len(), kinv(&table, Seq::<(int, int)>::empty()), tinv(&table, Seq::<(int, int)>::empty()),
+                kinv(&table, Seq::<(int, int)>::empty()), tinv(&table, Seq::<(int, int)>::empty()), uall(&table, rels@, subgroup_gens@),
+            ensures rows_ok(&table), table.nr_gens == nr_gens, i < table.table@.len(), kinv(&table, Seq::<(int, int)>::empty()), tinv(&table, Seq::<(int, int)>::empty()), uall(&table, rels@, subgroup_gens@),
                 forall|k: int| 0 <= k < i && #[trigger] canonical(&table, k) ==> row_complete(&table, k),
                 canonical(&table, i as int) ==> row_complete(&table, i as int),
         {
@@ -1891,6 +2384,7 @@ pub fn coset_table(
                     assert(t0.part.rep(n as int) == n);
                     lemma_kinv_join(&t0, &table, i as int, n as int, g as int);
                     lemma_tinv_join(&t0, &table, i as int, n as int, g as int);
+                    lemma_uall_join_new(&t0, &table, rels@, subgroup_gens@, i as int, n as int, g as int);
                     assert(prog(&table, i as int, __gens@, __gk as int));
                 }
 
@@ -1905,7 +2399,7 @@ pub fn coset_table(
                         __gk <= __gens@.len(),
                         forall|j: int| 0 <= j < __gens@.len() ==> table.gen_ok(#[trigger] __gens@[j] as int),
                         prog(&table, i as int, __gens@, __gk as int),
-                        kinv(&table, Seq::<(int, int)>::empty()), tinv(&table, Seq::<(int, int)>::empty()),
+                        kinv(&table, Seq::<(int, int)>::empty()), tinv(&table, Seq::<(int, int)>::empty()), uall(&table, rels@, subgroup_gens@),
                 {
                     for w in it: __set_items(&rels)
                         invariant rows_ok(&table), table.nr_gens == nr_gens, i < table.table@.len(), r < table.table@.len(),
@@ -1915,7 +2409,7 @@ pub fn coset_table(
                             __gk <= __gens@.len(),
                             forall|j: int| 0 <= j < __gens@.len() ==> table.gen_ok(#[trigger] __gens@[j] as int),
                             prog(&table, i as int, __gens@, __gk as int),
-                            kinv(&table, Seq::<(int, int)>::empty()), tinv(&table, Seq::<(int, int)>::empty()),
+                            kinv(&table, Seq::<(int, int)>::empty()), tinv(&table, Seq::<(int, int)>::empty()), uall(&table, rels@, subgroup_gens@),
                     {
                         proof { assert(rels@.contains(*it.seq()[it.index() as int])); assert(within(w@, nr_gens as int)); }
                         if w.len() > 0 && w[0] == h {
@@ -1928,6 +2422,7 @@ pub fn coset_table(
                             proof {
                                 assert forall|k: int| 0 <= k < deduced@.len() implies (#[trigger] deduced@[k]).0 < table.table@.len() by { if k < d0.len() { assert(deduced@[k] == d0[k]); } }
                                 lemma_prog_grows(&tb, &table, i as int, __gens@, __gk as int);
+                                lemma_uall_scan_rel(&tb, &table, rels@, subgroup_gens@, *w, c as int);
                             }
                         }
                     }
@@ -1940,7 +2435,7 @@ pub fn coset_table(
                             __gk <= __gens@.len(),
                             forall|j: int| 0 <= j < __gens@.len() ==> table.gen_ok(#[trigger] __gens@[j] as int),
                             prog(&table, i as int, __gens@, __gk as int),
-                            kinv(&table, Seq::<(int, int)>::empty()), tinv(&table, Seq::<(int, int)>::empty()),
+                            kinv(&table, Seq::<(int, int)>::empty()), tinv(&table, Seq::<(int, int)>::empty()), uall(&table, rels@, subgroup_gens@),
                     {
                         proof {
                             let m = it.index() as int;
@@ -1956,6 +2451,7 @@ pub fn coset_table(
                         proof {
                             assert forall|k: int| 0 <= k < deduced@.len() implies (#[trigger] deduced@[k]).0 < table.table@.len() by { if k < d0.len() { assert(deduced@[k] == d0[k]); } }
                             lemma_prog_grows(&tb, &table, i as int, __gens@, __gk as int);
+                            lemma_uall_scan_sub(&tb, &table, rels@, subgroup_gens@, it.index() as int, c as int);
                         }
                     }
                 }
@@ -1981,24 +2477,24 @@ pub fn coset_table(
     // that was not discovered).  Check every relator at every live row and
     // merge until the table is consistent.
     loop
-        invariant_except_break rows_ok(&table), table.nr_gens == nr_gens, all_complete(&table), kinv(&table, Seq::<(int, int)>::empty()), tinv(&table, Seq::<(int, int)>::empty()),
+        invariant_except_break rows_ok(&table), table.nr_gens == nr_gens, all_complete(&table), kinv(&table, Seq::<(int, int)>::empty()), tinv(&table, Seq::<(int, int)>::empty()), uall(&table, rels@, subgroup_gens@),
             all_within(subgroup_gens@, nr_gens as int),
             forall|u: FreeWord| #[trigger] rels@.contains(u) ==> within(u@, nr_gens as int),
-        ensures rows_ok(&table), table.nr_gens == nr_gens, all_complete(&table), kinv(&table, Seq::<(int, int)>::empty()), tinv(&table, Seq::<(int, int)>::empty()),
+        ensures rows_ok(&table), table.nr_gens == nr_gens, all_complete(&table), kinv(&table, Seq::<(int, int)>::empty()), tinv(&table, Seq::<(int, int)>::empty()), uall(&table, rels@, subgroup_gens@),
             // the last pass found every due word closing at every row, and changed nothing
             pass_done(&table, rels@, subgroup_gens@, table.table@.len() as int),
     {
         let mut changed = false;
 
         for i in iti: 0..table.len()
-            invariant rows_ok(&table), table.nr_gens == nr_gens, all_complete(&table), kinv(&table, Seq::<(int, int)>::empty()), tinv(&table, Seq::<(int, int)>::empty()),
+            invariant rows_ok(&table), table.nr_gens == nr_gens, all_complete(&table), kinv(&table, Seq::<(int, int)>::empty()), tinv(&table, Seq::<(int, int)>::empty()), uall(&table, rels@, subgroup_gens@),
                 iti.seq().len() == table.table@.len(),
                 all_within(subgroup_gens@, nr_gens as int),
                 forall|u: FreeWord| #[trigger] rels@.contains(u) ==> within(u@, nr_gens as int),
                 !changed ==> pass_done(&table, rels@, subgroup_gens@, i as int),
         {
             for w in it: __words_at(&rels, subgroup_gens, i)
-                invariant rows_ok(&table), table.nr_gens == nr_gens, all_complete(&table), kinv(&table, Seq::<(int, int)>::empty()), tinv(&table, Seq::<(int, int)>::empty()), i < table.table@.len(), iti.seq().len() == table.table@.len(),
+                invariant rows_ok(&table), table.nr_gens == nr_gens, all_complete(&table), kinv(&table, Seq::<(int, int)>::empty()), tinv(&table, Seq::<(int, int)>::empty()), uall(&table, rels@, subgroup_gens@), i < table.table@.len(), iti.seq().len() == table.table@.len(),
                     all_within(subgroup_gens@, nr_gens as int),
                     forall|u: FreeWord| #[trigger] rels@.contains(u) ==> within(u@, nr_gens as int),
                     forall|j: int| 0 <= j < it.seq().len() ==> rels@.contains(*#[trigger] it.seq()[j]) || (i == 0 && is_sub(subgroup_gens@, *it.seq()[j])),
@@ -2024,7 +2520,11 @@ pub fn coset_table(
                     let ghost tb = table;
                     table.merge(head, tail);
                     changed = true;
-                    proof { lemma_all_complete_grows(&tb, &table); }
+                    proof {
+                        lemma_all_complete_grows(&tb, &table);
+                        w.lemma_reduced();
+                        lemma_uall_merge(&tb, &table, rels@, subgroup_gens@, *w, i as int, c as int, (head, tail, gap, 0isize));
+                    }
                 }
                 proof {
                     assert(!changed && idx + 1 == it.seq().len() ==> row_done(&table, rels@, subgroup_gens@, i as int)) by {
@@ -2057,6 +2557,13 @@ pub fn coset_table(
         assert(complete_table(&__r));
         assert(valid(&__r));
         assert(transitive(&__r));
+        assert forall|act: spec_fn(int, int) -> int, x0: int| #[trigger] umodel(nr_gens as int, relators@, subgroup_gens@, act, x0) implies uinv(&__r, Seq::<(int, int)>::empty(), act, x0) by {
+            // a model of the relators is a model of all their rotations and inverses
+            assert(emodel(table.nr_gens as int, rels@, subgroup_gens@, act, x0)) by {
+                assert forall|u: FreeWord| #[trigger] rels@.contains(u) implies triv(act, u@) by { }
+            }
+            assert(uinv(&table, Seq::<(int, int)>::empty(), act, x0));
+        }
         assert forall|m: int, r: int| 0 <= m < relators@.len() && 0 <= r < __r.table@.len() implies #[trigger] trace(&__r, r, relators@[m]@) == Some(r as usize) by {
             assert(is_row(&__r, r));
             let k = choose|k: int| canonical(&table, k) && #[trigger] nw[k] == r;
@@ -2134,6 +2641,16 @@ fn witness_table_then_representatives(relators: &Vec<FreeWord>, subs: &Vec<FreeW
 
 proof fn canary_kinv_is_satisfiable(t: &CosetTable)
     requires rows_ok(t), kinv(t, Seq::<(int, int)>::empty()), t.nr_gens == 1, t.table@.len() == 2, t.raw(0, 1) == 1, t.raw(1, -1) == 0
+    ensures false
+{}
+
+proof fn canary_umodel_is_satisfiable(rels: Seq<FreeWord>, subs: Seq<FreeWord>, act: spec_fn(int, int) -> int)
+    requires umodel(2, rels, subs, act, 7), rels.len() == 1, rels[0]@.len() == 2, rels[0]@[0] == 1, rels[0]@[1] == 1, subs.len() == 0, act(7, 1) != 7
+    ensures false
+{}
+
+proof fn canary_uinv_is_satisfiable(t: &CosetTable, act: spec_fn(int, int) -> int)
+    requires rows_ok(t), uinv(t, Seq::<(int, int)>::empty(), act, 7), t.nr_gens == 1, t.table@.len() == 2, t.raw(0, 1) == 1, t.raw(1, -1) == 0
     ensures false
 {}
 
